@@ -2135,7 +2135,16 @@ def replay(R: Run, rec) -> int:
     cx = Ctx(R2, all(F(v).denominator & (F(v).denominator - 1) == 0 for v in tuple(g._affine)[:6]) and key not in
              ("zoom-to-int-longest-side", "zoom-to-int-shape"))
     cx.exact = False if key in ("bbox-misses-corner",) else cx.exact
-    if op == "acc-views":
+    if op == "region" and isinstance(args, dict) and "pts" in args:
+        from odc.geo import geom as G
+        pts = [tuple(float(F(v)) for v in t.split(";")) for t in args["pts"]]
+        crs = CRS_TAGS.get(int(args.get("crs", 0)))
+        roi = G.point(pts[0][0], pts[0][1], crs) if len(pts) == 1 else G.line(pts, crs) if len(pts) == 2 or pts[0] != pts[-1] \
+            else G.polygon(pts, crs)
+        got = g[roi]
+        print("region:", roi, "->", got)
+        region_oracle(Ctx(R2, False), g, roi, args.get("kind", "Geometry"), got)
+    elif op == "acc-views":
         check_accessors(cx, g)
     elif op == "gcp-acc-views" and args:
         ny0, nx0, baff, flag = args.split(" ")
